@@ -102,7 +102,7 @@ func loadKnown(verifDir string) (*knownFile, error) {
 }
 
 func (k *knownFinding) appliesTo(prop string) bool {
-	if k.Property == prop {
+	if k.Property == prop || prop == "ALL" {
 		return true
 	}
 	for _, p := range k.Properties {
